@@ -4,7 +4,8 @@ use std::io::Write;
 
 mod c01;
 pub mod c07;
-mod c10;
+mod c09;
+pub mod c10;
 
 pub fn generate(suite: &str, tier: &str, seed: u64) -> Vec<String> {
     let mut rng = Rng::new(seed);
@@ -12,6 +13,8 @@ pub fn generate(suite: &str, tier: &str, seed: u64) -> Vec<String> {
     match suite {
         "c01" => c01::generate(&mut rng, thorough),
         "c07" => c07::generate(&mut rng, thorough),
+        "c09" => c09::generate_c09(&mut rng, thorough),
+        "c06" => c09::generate_c06(&mut rng, thorough),
         "c10" => c10::generate(&mut rng, thorough),
         _ => panic!("unknown suite {suite}"),
     }
@@ -19,6 +22,9 @@ pub fn generate(suite: &str, tier: &str, seed: u64) -> Vec<String> {
 
 pub fn eval_more(t: &[&str]) -> String {
     if let Some(s) = c01::eval(t) {
+        return s;
+    }
+    if let Some(s) = c09::eval(t) {
         return s;
     }
     if let Some(s) = c10::eval(t) {
